@@ -219,11 +219,72 @@ Proof.
     + apply Hf. lia.
 Qed.
 
+Fixpoint occn (u : N) (l : list N) : N :=
+  match l with
+  | [] => 0
+  | x :: r => (if x =? u then 1 else 0) + occn u r
+  end.
+
+Lemma occn_pos_in : forall u l, 0 < occn u l <-> In u l.
+Proof.
+  induction l; simpl; [split; [lia|tauto]|].
+  destruct (N.eqb_spec a u); split; intros; try lia; auto.
+  - right. apply IHl. lia.
+  - destruct H; [congruence|]. apply IHl in H. lia.
+Qed.
+
+Lemma occn_app : forall u a b, occn u (a ++ b) = occn u a + occn u b.
+Proof. induction a; simpl; intros; [reflexivity|rewrite IHa; lia]. Qed.
+
+Lemma fold_max_gt : forall l u a, In u l \/ u < a -> u < fold_left (fun a u => N.max a (u + 1)) l a.
+Proof.
+  induction l; simpl; intros u b H; [destruct H; [tauto|exact H]|].
+  apply IHl. destruct H as [[H|H]|H]; [subst; right; lia|left; exact H|right; lia].
+Qed.
+
+Lemma nodup_app_disj : forall (A : Type) (a b : list A) x, NoDup (a ++ b) -> In x a -> ~ In x b.
+Proof.
+  induction a; simpl; intros b x N H; [tauto|]. apply NoDup_cons_iff in N. destruct N as [N1 N2]. destruct H.
+  - subst. intros X. apply N1. apply in_or_app. auto.
+  - apply IHa; auto.
+Qed.
+
+Lemma nodup_occn : forall l u, NoDup l -> occn u l <= 1.
+Proof.
+  induction l; simpl; intros u N; [lia|]. apply NoDup_cons_iff in N. destruct N as [N1 N2]. specialize (IHl u N2).
+  destruct (N.eqb_spec a u); [|lia]. subst.
+  assert (occn u l = 0). { destruct (N.eq_dec (occn u l) 0); auto. exfalso. apply N1. apply occn_pos_in. lia. }
+  lia.
+Qed.
+
+Lemma nodup_occ : forall fs u, NoDup (map f_uid fs) -> occ u fs <= 1.
+Proof.
+  induction fs; simpl; intros u N; [lia|]. apply NoDup_cons_iff in N. destruct N as [N1 N2]. specialize (IHfs u N2).
+  destruct (N.eqb_spec (f_uid a) u); [|lia]. subst.
+  assert (occ (f_uid a) fs = 0). { apply occ_zero_notin. exact N1. }
+  lia.
+Qed.
+
+Lemma nodup_app_r : forall (A : Type) (a b : list A), NoDup (a ++ b) -> NoDup b.
+Proof. induction a; simpl; intros; auto. apply NoDup_cons_iff in H. apply IHa. tauto. Qed.
+
+Lemma nodup_app_l : forall (A : Type) (a b : list A), NoDup (a ++ b) -> NoDup a.
+Proof.
+  induction a; simpl; intros; [constructor|]. apply NoDup_cons_iff in H. destruct H as [H1 H2].
+  constructor; [|eapply IHa; eauto]. intros X. apply H1. apply in_or_app. auto.
+Qed.
+
 (* ---------------------------------------------------------------- the invariant *)
+Section Junk.
+(* files in the index directory that manager.New could not load: never served, never counted, never removed *)
+Variable junk : list N.
+
+Definition pend (st : state) (u : N) : N := occ u (pending_files st) + occn u junk.
+
 Record invx (x : list file) (st : state) : Prop := {
-  i_cons : consistent (used st) (disk st) (fun u => holders st u + occ u x) (fun u => occ u (pending_files st));
-  i_fresh : forall u, 0 < holders st u + occ u x \/ 0 < occ u (pending_files st) -> u < next_uid st;
-  i_pend1 : forall u, occ u (pending_files st) <= 1;
+  i_cons : consistent (used st) (disk st) (fun u => holders st u + occ u x) (pend st);
+  i_fresh : forall u, 0 < holders st u + occ u x \/ 0 < pend st u -> u < next_uid st;
+  i_pend1 : forall u, pend st u <= 1;
   i_queue : ijob st <> None -> queue st <> [];
   i_ijstart : forall j, ijob st = Some j -> ij_phase j = AtStart -> ij_created j = [];
   i_mjstart : forall j, mjob st = Some j -> mj_phase j = AtStart -> mj_merged j = []
@@ -256,7 +317,7 @@ Proof. intros. rewrite (occ_firstn_skipn u n fs). lia. Qed.
 Lemma occ_firstn_le : forall u n fs, occ u (firstn n fs) <= occ u fs.
 Proof. intros. rewrite (occ_firstn_skipn u n fs). lia. Qed.
 
-Ltac hsimpl := repeat progress (unfold holders, pending_files, ij_files, mj_files, tj_files, cj_files, copy_from in *; simpl in *).
+Ltac hsimpl := repeat progress (unfold pend, holders, pending_files, ij_files, mj_files, tj_files, cj_files, copy_from in *; simpl in *).
 
 Lemma skipn_add : forall (A : Type) off n (l : list A), skipn n (skipn off l) = skipn (off + n) l.
 Proof.
@@ -353,7 +414,7 @@ Lemma invx_same : forall x st st',
   invx x st -> invx x st'.
 Proof.
   intros x st st' E1 E2 E3 E4 E5 E6 E7 E9 E8 Q [C F P1 _ IS MS].
-  constructor; unfold holders, pending_files in *; rewrite ?E1, ?E2, ?E3, ?E4, ?E5, ?E6, ?E7, ?E8, ?E9; auto.
+  constructor; unfold pend, holders, pending_files in *; rewrite ?E1, ?E2, ?E3, ?E4, ?E5, ?E6, ?E7, ?E8, ?E9; auto.
   intros H. apply Q. rewrite E5. exact H.
 Qed.
 
@@ -485,8 +546,8 @@ Proof.
   - intros u. hsimpl. rewrite Hj in *. simpl in *. rewrite occ_app.
     destruct (N.eq_dec (occ u created) 0) as [E|E]; [specialize (P1 u); lia|].
     assert (u = next_uid st) by (apply Hc; lia). subst u.
-    destruct (N.eq_dec (occ (next_uid st) match mjob st with Some j => mj_merged j | None => [] end) 0) as [E2|E2].
-    * rewrite E2. subst created. destruct es; simpl; rewrite ?N.eqb_refl; lia.
+    destruct (N.eq_dec (occ (next_uid st) match mjob st with Some j => mj_merged j | None => [] end + occn (next_uid st) junk) 0) as [E2|E2].
+    * subst created. destruct es; simpl in *; rewrite ?N.eqb_refl in *; lia.
     * assert (next_uid st < next_uid st) by (apply F; right; lia). lia.
   - intros _. apply Q. rewrite Hj. discriminate.
   - intros j E. inversion E; subst. simpl. discriminate.
@@ -512,10 +573,11 @@ Proof.
                   (next_cap st) (next_id st) (match snap with [] => next_uid st | _ => next_uid st + 1 end) (nunm st) (cwork st)
                   (unc st) (cjob st) (ijob st) (Some (mkMJ off snap AtDone created)) (tjob st) (views st)) u = holders st u).
   { intros u. hsimpl. rewrite Hj. reflexivity. }
-  constructor; simpl; auto; fold created.
+  unfold pend in *.
+  constructor; simpl; auto; fold created; unfold pend.
   - refine (create_ok created _ _ _ _ _ _ _ _ _ C).
     + intros u. rewrite Eh. reflexivity.
-    + intros u. rewrite Ep. unfold pending_files. simpl. fold ic. rewrite occ_app. reflexivity.
+    + intros u. rewrite Ep. unfold pending_files. simpl. fold ic. rewrite occ_app. lia.
     + intros u H. apply Hc in H. subst u.
       destruct (N.eq_dec (holders st (next_uid st) + occ (next_uid st) []) 0) as [E|E]; [exact E|].
       assert (next_uid st < next_uid st) by (apply F; left; lia). lia.
@@ -526,8 +588,8 @@ Proof.
   - intros u. unfold pending_files. simpl. fold ic. rewrite occ_app.
     destruct (N.eq_dec (occ u created) 0) as [E|E]; [specialize (P1 u); rewrite Ep in P1; lia|].
     assert (u = next_uid st) by (apply Hc; lia). subst u.
-    destruct (N.eq_dec (occ (next_uid st) ic) 0) as [E2|E2].
-    * rewrite E2. subst created. destruct snap; simpl; rewrite ?N.eqb_refl; lia.
+    destruct (N.eq_dec (occ (next_uid st) ic + occn (next_uid st) junk) 0) as [E2|E2].
+    * subst created. destruct snap; simpl in *; rewrite ?N.eqb_refl in *; lia.
     * assert (next_uid st < next_uid st) by (apply F; right; rewrite Ep; lia). lia.
   - intros j E. inversion E; subst. simpl. discriminate.
 Qed.
@@ -584,6 +646,7 @@ Proof.
   set (ic := match ijob st with Some j => ij_created j | None => [] end).
   assert (Ep : forall u, occ u (pending_files st) = occ u ic + occ u mg).
   { intros u. unfold pending_files. rewrite Hj. simpl. fold ic. apply occ_app. }
+  unfold pend in *.
   destruct mg as [|m0 mg'].
   - (* merge failed *)
     constructor; simpl; auto.
@@ -599,17 +662,17 @@ Proof.
       set (hA := fun u => occ u (firstn off (indexes st)) + occ u (skipn (off + length snap) (indexes st))
                           + occ_views u (views st) + occ u (ij_files (ijob st)) + occ u (tj_files (tjob st)) + occ u (cj_files (cjob st)) + occ u snap).
       assert (CA : consistent (fst (release old (used st, disk st))) (snd (release old (used st, disk st))) hA
-                              (fun u => occ u (pending_files st))).
+                              (fun u => occ u (pending_files st) + occn u junk)).
       { refine (release_ok old _ _ _ _ _ _ C). intros u. subst hA. hsimpl. rewrite Hj. simpl. specialize (S3 u). lia. }
       refine (lock_pending_ok mg _ _ _ _ _ _ _ _ _ CA).
       * intros u. subst hA. hsimpl. rewrite !occ_app. simpl. rewrite ?occ_app. lia.
-      * intros u. rewrite Ep. unfold pending_files. simpl. fold ic. rewrite app_nil_r. reflexivity.
-      * intros u H. unfold pending_files. simpl. fold ic. rewrite app_nil_r.
+      * intros u. rewrite Ep. unfold pend, pending_files. simpl. fold ic. rewrite app_nil_r. lia.
+      * intros u H. unfold pend, pending_files. simpl. fold ic. rewrite app_nil_r.
         specialize (P1 u). rewrite Ep in P1. lia.
     + intros u H. apply F. rewrite Ep. subst mg. hsimpl. rewrite Hj in *. simpl in *. fold ic in H.
       rewrite app_nil_r in H. rewrite !occ_app in H. simpl in H. rewrite ?occ_app in H. specialize (S3 u). fold old in S3.
       lia.
-    + intros u. specialize (P1 u). rewrite Ep in P1. unfold pending_files. simpl. fold ic. rewrite app_nil_r. lia.
+    + intros u. specialize (P1 u). rewrite Ep in P1. unfold pend, pending_files. simpl. fold ic. rewrite app_nil_r. lia.
     + intros j E. discriminate.
 Qed.
 
@@ -624,20 +687,21 @@ Proof.
     set (mm := match mjob st with Some j => mj_merged j | None => [] end).
     assert (Ep : forall u, occ u (pending_files st) = occ u cr + occ u mm).
     { intros u. unfold pending_files. rewrite Hj. simpl. fold mm. apply occ_app. }
+    unfold pend in *.
     constructor; simpl; auto.
     - set (hA := fun u => occ u (indexes st) + occ_views u (views st) + occ u (mj_files (mjob st)) + occ u (tj_files (tjob st)) + occ u (cj_files (cjob st))).
       assert (CA : consistent (fst (release snap (used st, disk st))) (snd (release snap (used st, disk st))) hA
-                              (fun u => occ u (pending_files st))).
+                              (fun u => occ u (pending_files st) + occn u junk)).
       { refine (release_ok snap _ _ _ _ _ _ C). intros u. subst hA. hsimpl. rewrite Hj. simpl. lia. }
       refine (lock_pending_ok cr _ _ _ _ _ _ _ _ _ CA).
       + intros u. subst hA. hsimpl. rewrite !occ_app. lia.
-      + intros u. rewrite Ep. unfold pending_files. simpl. fold mm. lia.
-      + intros u H. unfold pending_files. simpl. fold mm. specialize (P1 u). rewrite Ep in P1. lia.
+      + intros u. rewrite Ep. unfold pend, pending_files. simpl. fold mm. lia.
+      + intros u H. unfold pend, pending_files. simpl. fold mm. specialize (P1 u). rewrite Ep in P1. lia.
     - intros u H. apply F. rewrite Ep. hsimpl. rewrite Hj in *. simpl in *. fold mm in H.
       rewrite !occ_app in H.
       destruct (N.eq_dec (occ u cr) 0); [|right; lia].
       destruct H; [left|right]; lia.
-    - intros u. specialize (P1 u). rewrite Ep in P1. unfold pending_files. simpl. fold mm. lia.
+    - intros u. specialize (P1 u). rewrite Ep in P1. unfold pend, pending_files. simpl. fold mm. lia.
     - intros j E. discriminate. }
   assert (Hq1 : queue st1 = skipn np (queue st)) by reflexivity.
   assert (Hij : ijob st1 = None) by reflexivity.
@@ -666,22 +730,32 @@ Proof.
   - destruct k; [apply step_complete_import_ok|apply step_complete_merge_ok|apply step_complete_tag_ok|apply step_complete_conv_ok]; auto.
 Qed.
 
-Lemma inv13_init : inv13 init.
+(* the state manager.New builds from an index directory satisfies the invariant *)
+Lemma inv13_init_from : forall fs P, NoDup (map f_uid fs ++ junk) -> inv13 (init_from capdb fs junk P).
 Proof.
-  constructor; simpl; try (intros; discriminate); try congruence.
-  - split; [|split]; intros u; simpl.
-    + reflexivity.
-    + split; [tauto|]. unfold holders, pending_files. simpl. lia.
-    + unfold pending_files. simpl. lia.
-  - intros u. unfold holders, pending_files. simpl. lia.
+  intros fs P ND.
+  assert (D : forall u, 0 < occn u junk -> occ u fs = 0).
+  { intros u H. apply occn_pos_in in H. apply occ_zero_notin. intros X. exact (nodup_app_disj _ _ _ _ ND X H). }
+  assert (H0 : forall u, holders (init_from capdb fs junk P) u = occ u fs).
+  { intros u. unfold holders. simpl. lia. }
+  assert (P0 : forall u, pend (init_from capdb fs junk P) u = occn u junk).
+  { intros u. unfold pend, pending_files. simpl. lia. }
+  constructor; try (simpl; intros; discriminate); try (simpl; congruence).
+  - split; [|split]; intros u.
+    + rewrite H0. simpl. rewrite cnt_lock. simpl. lia.
+    + rewrite H0, P0. simpl. rewrite in_app_iff, <- occ_pos_in, <- occn_pos_in. lia.
+    + rewrite H0, P0. intros H. rewrite (D u H). simpl. lia.
+  - intros u H. rewrite H0, P0 in H. simpl. apply fold_max_gt. left. apply in_or_app.
+    destruct H as [H|H]; [left; apply occ_pos_in; simpl in H; lia|right; apply occn_pos_in; exact H].
+  - intros u. rewrite P0. apply nodup_occn. eapply nodup_app_r. exact ND.
 Qed.
 
-Theorem run_inv13 : forall acts, inv13 (fold_left (step capdb bad rf merge) acts init).
-Proof.
-  intros acts. assert (G : forall st, inv13 st -> inv13 (fold_left (step capdb bad rf merge) acts st)).
-  { induction acts; simpl; intros; auto. apply IHacts. apply step_inv13. auto. }
-  apply G. apply inv13_init.
-Qed.
+Theorem run_inv13_from : forall acts st, inv13 st -> inv13 (fold_left (step capdb bad rf merge) acts st).
+Proof. induction acts; simpl; intros; auto. apply IHacts. apply step_inv13. auto. Qed.
+
+Theorem run_inv13_start : forall fs P acts, NoDup (map f_uid fs ++ junk) ->
+  inv13 (fold_left (step capdb bad rf merge) acts (init_from capdb fs junk P)).
+Proof. intros. apply run_inv13_from. apply inv13_init_from. auto. Qed.
 
 End Step13.
 
@@ -714,7 +788,8 @@ Definition uniq (st : state) : Prop := forall u, occ u (indexes st) <= 1.
 
 Lemma pending_not_held : forall st u, inv13 st -> 0 < occ u (pending_files st) -> occ u (indexes st) = 0.
 Proof.
-  intros st u I H. destruct (i_cons _ _ I) as (_ & _ & C). specialize (C u H). unfold holders in C. lia.
+  intros st u I H. destruct (i_cons _ _ I) as (_ & _ & C). assert (H' : 0 < pend st u) by (unfold pend; lia).
+  specialize (C u H'). unfold holders in C. lia.
 Qed.
 
 Lemma step_uniq : forall st a, inv13 st -> uniq st -> uniq (step capdb bad rf merge st a).
@@ -744,7 +819,7 @@ Proof.
       assert (P : 0 < occ u (pending_files st)).
       { unfold pending_files. rewrite Hj. simpl. rewrite occ_app. lia. }
       rewrite (pending_not_held st u I P).
-      pose proof (i_pend1 _ _ I u) as P1. unfold pending_files in P1. rewrite Hj in P1. simpl in P1. rewrite occ_app in P1. lia.
+      pose proof (i_pend1 _ _ I u) as P1. unfold pend, pending_files in P1. rewrite Hj in P1. simpl in P1. rewrite occ_app in P1. lia.
     + destruct (mjob st) as [[off snap [|] mg]|] eqn:Hj; auto.
       intros u. rewrite indexes_set_used_disk, indexes_start_merge.
       destruct mg as [|m0 mg']; [apply U|].
@@ -756,19 +831,21 @@ Proof.
       assert (P : 0 < occ u (pending_files st)).
       { unfold pending_files. rewrite Hj. simpl. rewrite occ_app. lia. }
       pose proof (pending_not_held st u I P) as Z0.
-      pose proof (i_pend1 _ _ I u) as P1. unfold pending_files in P1. rewrite Hj in P1. simpl in P1. rewrite occ_app in P1. lia.
+      pose proof (i_pend1 _ _ I u) as P1. unfold pend, pending_files in P1. rewrite Hj in P1. simpl in P1. rewrite occ_app in P1. lia.
     + destruct (tjob st) as [[snap [|] vv]|]; auto.
       intros u. rewrite indexes_set_used_disk, indexes_start_merge, indexes_start_converter, indexes_start_tagging. apply U.
     + destruct (cjob st) as [[snap [|]]|]; auto.
       intros u. rewrite indexes_set_used_disk, indexes_start_merge, indexes_start_converter, indexes_start_tagging. apply U.
 Qed.
 
-Theorem run_uniq : forall acts, uniq (fold_left (step capdb bad rf merge) acts init).
+Theorem run_uniq_from : forall acts st, inv13 st -> uniq st -> uniq (fold_left (step capdb bad rf merge) acts st).
+Proof. induction acts; simpl; intros; auto. apply IHacts; [apply step_inv13|apply step_uniq]; auto. Qed.
+
+Theorem run_uniq_start : forall fs P acts, NoDup (map f_uid fs ++ junk) ->
+  uniq (fold_left (step capdb bad rf merge) acts (init_from capdb fs junk P)).
 Proof.
-  intros acts.
-  assert (G : forall st, inv13 st -> uniq st -> uniq (fold_left (step capdb bad rf merge) acts st)).
-  { induction acts; simpl; intros; auto. apply IHacts; [apply step_inv13|apply step_uniq]; auto. }
-  apply G; [apply inv13_init; assumption|]. intros u. unfold init. simpl. lia.
+  intros fs P acts ND. apply run_uniq_from; [apply inv13_init_from; auto; assumption|].
+  intros u. simpl. apply nodup_occ. eapply nodup_app_l. exact ND.
 Qed.
 
 End Step13b.
@@ -809,29 +886,42 @@ Proof.
 Qed.
 
 Lemma inv13_disk_iff : forall st u, inv13 st ->
-  (In u (disk st) <-> 0 < cnt (used st) u \/ being_written st u).
+  (In u (disk st) <-> 0 < cnt (used st) u \/ being_written st u \/ In u junk).
 Proof.
   intros st u I. rewrite (inv13_count st u I). destruct (i_cons _ _ I) as (_ & B & _).
-  rewrite B. simpl. unfold being_written. rewrite <- occ_pos_in. split; intros [H|H]; auto; left; lia.
+  rewrite B. simpl. unfold being_written, pend. rewrite <- occ_pos_in, <- occn_pos_in. lia.
 Qed.
 
 Lemma inv13_written_unused : forall st u, inv13 st -> being_written st u -> cnt (used st) u = 0.
 Proof.
   intros st u I H. rewrite (inv13_count st u I). destruct (i_cons _ _ I) as (_ & _ & C).
-  unfold being_written in H. rewrite <- occ_pos_in in H. specialize (C u H). simpl in C. lia.
+  unfold being_written in H. rewrite <- occ_pos_in in H.
+  assert (H' : 0 < pend st u) by (unfold pend; lia). specialize (C u H'). simpl in C. lia.
+Qed.
+
+(* a file manager.New could not load is never counted, never served, never removed *)
+Lemma inv13_junk : forall st u, inv13 st -> In u junk ->
+  cnt (used st) u = 0 /\ ~ In u (map f_uid (indexes st)) /\ In u (disk st).
+Proof.
+  intros st u I H. apply occn_pos_in in H.
+  assert (H' : 0 < pend st u) by (unfold pend; lia).
+  destruct (i_cons _ _ I) as (_ & B & C). pose proof (C u H') as Z. simpl in Z.
+  split; [rewrite (inv13_count st u I); lia|]. split.
+  - rewrite <- occ_pos_in. unfold holders in Z. lia.
+  - apply B. right. exact H'.
 Qed.
 
 Lemma inv13_quiescent : forall st u, inv13 st -> uniq st -> quiescent st ->
-  (In u (disk st) <-> In u (map f_uid (indexes st))) /\
+  (In u (disk st) <-> In u (map f_uid (indexes st)) \/ In u junk) /\
   cnt (used st) u = (if existsb (N.eqb u) (map f_uid (indexes st)) then 1 else 0).
 Proof.
   intros st u I U (Q1 & Q2 & Q3 & Q5 & Q4).
   assert (H : holders st u = occ u (indexes st)).
   { unfold holders. rewrite Q1, Q2, Q3, Q4, Q5. simpl. lia. }
-  assert (P : occ u (pending_files st) = 0).
-  { unfold pending_files. rewrite Q1, Q2. reflexivity. }
+  assert (P : pend st u = occn u junk).
+  { unfold pend, pending_files. rewrite Q1, Q2. reflexivity. }
   split.
-  - destruct (i_cons _ _ I) as (_ & B & _). rewrite B. simpl. rewrite H, P, <- occ_pos_in. lia.
+  - destruct (i_cons _ _ I) as (_ & B & _). rewrite B. simpl. rewrite H, P, <- occ_pos_in, <- occn_pos_in. lia.
   - rewrite (inv13_count st u I), H. specialize (U u).
     destruct (existsb (N.eqb u) (map f_uid (indexes st))) eqn:E.
     + apply existsb_exists in E. destruct E as (w & Hw & Ew). apply N.eqb_eq in Ew. subst w.
@@ -848,4 +938,20 @@ Proof.
   induction fs; simpl; intros H; constructor.
   - intros Hin. apply occ_pos_in in Hin. specialize (H (f_uid a)). rewrite N.eqb_refl in H. lia.
   - apply IHfs. intros u. specialize (H u). destruct (f_uid a =? u); lia.
+Qed.
+
+End Junk.
+
+(* ---------------------------------------------------------------- from the empty directory *)
+Lemma init_is_init_from : forall capdb, init = init_from capdb [] [] [].
+Proof. reflexivity. Qed.
+
+Theorem run_inv13 : forall capdb bad rf merge acts, inv13 [] (fold_left (step capdb bad rf merge) acts init).
+Proof.
+  intros. rewrite (init_is_init_from capdb). apply (run_inv13_start [] capdb bad rf merge [] [] acts). constructor.
+Qed.
+
+Theorem run_uniq : forall capdb bad rf merge acts, uniq (fold_left (step capdb bad rf merge) acts init).
+Proof.
+  intros. rewrite (init_is_init_from capdb). apply (run_uniq_start [] capdb bad rf merge [] [] acts). constructor.
 Qed.
